@@ -4,6 +4,7 @@ import json
 import os
 import re
 
+from .. import engine_e2e as e2e
 from .. import kj, smlib
 from ..check import VERIF, unjson
 from ..kj import scratch
@@ -21,7 +22,7 @@ MANIFEST = {
              "the real Context/Internals/StateMachine files are PARSED AND EXECUTED (translator/csmini.py: classes, fields, virtual dispatch, generics, new/is/as, "
              "if/return, assignments, calls; non-threaded preprocessor branch) under a recording context for random event sequences and guard bits and compared with a "
              "Python reading of the property; extracted run_cs = extracted table_interp_quiet; declaration triples vs Decls.decls_file. "
-             "ENGINE BRIDGE (C10_handlers_engine, C10_handler_reads, C10_block_is_shipped): for every table with well-formed rows the file the engine model's pipeline (C16) writes from the transition block of the SHIPPED TEMPLATEInternals.cs (Model/CsRender.cs_block16: source-derived lines read into the template syntax, checked to render back) is one class text per cs_classes, one Trigger<e> override per cs_handlers, and the PER_GUARDTRANSITION lines of that override read one by one (without indentation) as the C# statements of the tokens cs_handler t s e; that text is found verbatim in the real <Name>Internals.cs on every case."),
+             "ENGINE BRIDGE (C10_handlers_engine, C10_handler_reads, C10_block_is_shipped): for every table with well-formed rows the file the engine model's pipeline (C16) writes from the transition block of the SHIPPED TEMPLATEInternals.cs (Model/CsRender.cs_block16: source-derived lines read into the template syntax, checked to render back) is one class text per cs_classes, one Trigger<e> override per cs_handlers, and the PER_GUARDTRANSITION lines of that override read one by one (without indentation) as the C# statements of the tokens cs_handler t s e; that text is found verbatim in the real <Name>Internals.cs on every case. WHOLE FILE (C10_file_engine): the shipped TEMPLATEInternals.cs as a whole lies in the C16 grammar (user-tag line, <<<TTT_BOOST_SML>>> line, per-state / per-event blocks, the transition block); for every table, interface and assignment of user tags admitted for it (cs_file_wf, evaluated per case) the pipeline's output is ref16 of the file, and the real <Name>Internals.cs is compared with it AS A WHOLE on every case."),
     "note": ("No C# compiler exists here: 'executed' means executed by the harness's own interpreter of the C# subset the generated files use (it refuses anything outside "
              "the subset); member types and C# name lookup are not checked by anything. The threaded configuration (SM_THREAD_1: queue + dispatch thread) is not modelled; "
              "the class/handler nesting (PER_STATETRANSITION / PER_EVENTTRANSITION) is modelled in closed form, its template shape is checked by the translator."),
@@ -328,6 +329,21 @@ def one_case(ctx, table, spec, rng_bits, evs_with_args=None):
         if ref == "" or ref not in files["%sInternals.cs" % NAME]:
             ctx.tie_broken("the state classes of the generated Internals.cs differ from ref16 of the shipped block (Model/CsRender.cs_block16)",
                            {"table": table, "ref16": ref[:1500]})
+        # the WHOLE file: what the real pipeline writes from the shipped TEMPLATEInternals.cs is ref16 of the file read into the Coq
+        # template syntax (C10_file_engine), for this table, this interface and this assignment of user tags
+        iface = smlib.build_iface(spec)
+        structs, protos, msgs = e2e.iface_parts(iface)
+        ut = [[k, "" if v is None else str(v)] for k, v in spec.get("usertags", {}).items()]
+        rws = [list(r) for r in table]
+        if ctx.km.call("cs.file_wf", rws, structs, protos, msgs, ut) == b"1":
+            ctx.count("whole_file_inside_domain")
+            whole = ctx.km.call("cs.file_ref", rws, structs, protos, msgs, ut).decode("utf-8", "surrogateescape")
+            if whole != files["%sInternals.cs" % NAME]:
+                k = next((i for i, (x, y) in enumerate(zip(whole, files["%sInternals.cs" % NAME])) if x != y), min(len(whole), len(files["%sInternals.cs" % NAME])))
+                ctx.tie_broken("the generated Internals.cs differs from ref16 of the whole shipped file (Model/CsRender.cs_file16)",
+                               {"table": table, "usertags": ut, "at": k, "real": files["%sInternals.cs" % NAME][max(0, k - 80):k + 120], "ref16": whole[max(0, k - 80):k + 120]})
+        else:
+            ctx.count("whole_file_outside_domain")
     st = smlib.names(table)[0]
     got_classes = [c for c, _h, _en, _ex in classes]
     if sorted(got_classes) != sorted(st):
